@@ -777,6 +777,7 @@ def c05(tier, rng, fam='C05'):
     out += refused_write_then_calls(fam)
     out += paused_handler_backlog(fam)
     out += random_programs(fam, 60 if tier == 'quick' else 1500, rng, maxcalls=6)
+    out += slow_reader(fam, tier)
     # (d) a unary call given up at the very moment its reply has been handed to it (both branches of the
     # caller's select are ready: Go picks either): whatever that call reports, the NEXT calls get their own
     # replies - nothing of an abandoned call may survive into a later one
@@ -1671,5 +1672,28 @@ def same_key_other_case(fam, reps):
                     hp += [dict(o='settrl', md=t1), dict(o='settrl', md=t2), ret()]
                     b.step('sopen', c=1, kind=kind, md=[[k2, 'r1'], [k2, 'r2']], hp=hp)
                     b.step('send', c=1, pay='x').step('close', c=1).step('hdr', c=1).step('recv', c=1, n=2).step('trl', c=1)
+                out.append(b.q().done())
+    return out
+
+
+def slow_reader(fam, tier='quick'):
+    """the handler sends n messages in one go while the caller is not receiving (they pile up on the way), other calls
+    are answered meanwhile where they can be; when the caller gets round to receiving, it gets every message once, in order"""
+    out = []
+    for kind in ('ss', 'bidi'):
+        for n in ((20, 40, 120) if tier == 'quick' else (18, 19, 20, 33, 64, 120, 400)):
+            for others in (0, 1):
+                b = B(fam, '%s slow reader: %d responses pile up before the first Recv, %d other stream(s)' % (kind, n, others), ser=bool(n % 2))
+                if others:
+                    b.step('sopen', c=5, kind='bidi', hp=[dict(o='recv'), dict(o='burst', n=25, pay='o'), dict(o='drain'), ret()])
+                    b.step('send', c=5, pay='go')
+                b.step('sopen', c=1, kind=kind, hp=[dict(o='recv'), dict(o='burst', n=n, pay='m'), dict(o='drain'), ret()])
+                b.step('send', c=1, pay='go')
+                b.q()
+                b.step('recv', c=1, n=n)
+                b.step('close', c=1)
+                b.step('recv', c=1)
+                if others:
+                    b.step('recv', c=5, n=25).step('close', c=5).step('recv', c=5)
                 out.append(b.q().done())
     return out
